@@ -275,6 +275,21 @@ example :
     (step s 10 (.grantTtl 1 2 1 .read 9)).2 = .err .denied ∧ (step s 10 (.revoke 1 2 1)).2 = .err .denied ∧
     (step s 10 (.delegate 1 2 [1] .read none)).2 = .err .denied := by decide
 
+/-- non-vacuity for the other read / overwrite paths: with a Read grant identity 1 reads old versions, the version
+    count, a batch and a wrapped copy but cannot roll back; with a Write grant for 5 time units identity 2 rolls back
+    and batch-writes at t=4 and does none of it at t=10; identity 3 (no grant) gets nothing anywhere -/
+example :
+    let s := run (init) [(0, .set 0 1 7 3), (0, .rotate 0 1 8 3), (0, .grant 0 1 1 .read), (0, .grantTtl 0 2 1 .write 5)]
+    (step s 4 (.getVersion 1 1 1)).2 = .value 7 ∧ (step s 4 (.getVersion 1 1 2)).2 = .value 8 ∧
+    (step s 4 (.getVersion 1 1 3)).2 = .err .notFound ∧ (step s 4 (.versions 1 1)).2 = .num 2 ∧
+    (step s 4 (.batchGet 1 [1, 2])).2 = .items [.val 8, .err .denied] ∧ (step s 4 (.wrap 1 1)).2 = .ok ∧
+    (step s 4 (.rollback 1 1 1)).2 = .err .insufficient ∧
+    (step s 4 (.rollback 2 1 1)).2 = .ok ∧ (step s 4 (.batchSet 2 [(1, 9, 3), (2, 9, 3)])).2 = .items [.done, .err .denied] ∧
+    (step s 10 (.rollback 2 1 1)).2 = .err .denied ∧ (step s 10 (.batchSet 2 [(1, 9, 3)])).2 = .items [.err .denied] ∧
+    (step s 10 (.getVersion 2 1 1)).2 = .err .denied ∧ (step s 10 (.batchGet 2 [1])).2 = .items [.err .denied] ∧
+    (step s 4 (.getVersion 3 1 1)).2 = .err .denied ∧ (step s 4 (.versions 3 1)).2 = .err .denied ∧
+    (step s 4 (.wrap 3 1)).2 = .err .denied ∧ (step s 4 (.batchGet 3 [1])).2 = .items [.err .denied] := by decide
+
 /-- the code BEFORE 4e577a4d violated the property: root grants Write for 5 time units at t=0; at any later time
     (the old `set_inner` never looked at the TTL tracker) the grantee still overwrites the secret although no
     grant live at t=10 justifies it -/
@@ -410,6 +425,132 @@ example :
     (step (step s 1 (.revoke 0 1 1)).1 1 (.get 1 1)).2 = .err .denied ∧
     (step (step s 1 (.delete 0 1)).1 1 (.get 1 1)).2 = .err .denied := by decide
 
+/-! ## re-opening the vault, cascading revocation -/
+
+/-- FULL: dropping the `Vault` object and building a new one over the same store and graph (`Vault::new`: the TTL
+    tracker and the delegation records are re-read from their persisted copies, then `cleanup_expired_grants` runs)
+    neither resurrects nor immortalises a grant — for every configuration and history (which may itself contain
+    earlier re-openings) and every time `t`: the re-opened vault's graph is a sub-graph of the old one, every edge in
+    it is unexpired at `t`, and every edge issued with an expiry is again tracked (in memory AND in the persisted
+    copy) with that same expiry — so `access_requires_live_grant` keeps applying to every later call. -/
+theorem reopen_keeps_every_expiry (pol : Policy) (a b c : Nat) (h : List (Nat × Op)) (t : Nat) :
+    (∀ e ∈ (step (run (init pol a b c) h) t .reopen).1.graph, e ∈ (run (init pol a b c) h).graph ∧ LiveAt t e) ∧
+    (∀ e ∈ (step (run (init pol a b c) h) t .reopen).1.graph, ∀ x, e.expiry = some x →
+      ∃ ent sec, e.src = entNode ent ∧ e.dst = secNode sec ∧
+        TtlEntry.mk ent sec x ∈ (step (run (init pol a b c) h) t .reopen).1.ttl ∧
+        TtlEntry.mk ent sec x ∈ (step (run (init pol a b c) h) t .reopen).1.pttl) := by
+  have hi := run_inv h _ (init_inv pol a b c)
+  obtain ⟨hti, hsp, hlive⟩ := reopen_inv hi.1 hi.2 t
+  refine ⟨hlive, fun e he x hx => ?_⟩
+  obtain ⟨ent, sec, h1, h2, _, h4⟩ := hti e he x hx
+  exact ⟨ent, sec, h1, h2, h4, hsp _ h4⟩
+
+/-- non-vacuity: a 5-unit Read grant survives a re-opening at t=3 (read at t=4) and is gone at t=10 whether the vault
+    was re-opened before or after the expiry; a delegation made before can still be revoked after -/
+example :
+    let s := run (init) [(0, .set 0 1 7 3), (0, .grantTtl 0 1 1 .read 5), (1, .delegate 0 2 [1] .read (some 5)), (3, .reopen)]
+    (step s 4 (.get 1 1)).2 = .value 7 ∧ (step s 4 (.get 2 1)).2 = .value 7 ∧
+    (step s 10 (.get 1 1)).2 = .err .denied ∧ (step s 10 (.get 2 1)).2 = .err .denied ∧
+    (step (step s 10 .reopen).1 10 (.get 1 1)).2 = .err .denied ∧
+    (step s 4 (.undelegate 0 2)).2 = .names [1] ∧ (step (step s 4 (.undelegate 0 2)).1 4 (.get 2 1)).2 = .err .denied := by
+  decide
+
+/-- why the persisted copy matters (negative control for the invariant `SubP`): in a state whose tracker entry never
+    reached `_vault_ttl_grants`, re-opening forgets the expiry and the grant issued for 5 time units still reads at
+    t=10 — the state is NOT reachable by the modelled code, which persists right after every `ttl_tracker.add` -/
+theorem reopen_needs_persisted_tracker_witness :
+    ∃ s : State, TI s.graph s.ttl ∧ ¬ SubP s ∧ (step (step s 10 .reopen).1 10 (.get 1 1)).2 = .value 7 ∧
+      (step s 10 (.get 1 1)).2 = .err .denied := by
+  refine ⟨{ (run (init) [(0, .set 0 1 7 3), (0, .grantTtl 0 1 1 .read 5)]) with pttl := [] }, ?_, ?_, by decide, by decide⟩
+  · intro e he x hx
+    have hg : ({ (run (init) [(0, .set 0 1 7 3), (0, .grantTtl 0 1 1 .read 5)]) with pttl := [] } : State).graph =
+        [accessEdge 1 0 1 .admin none, accessEdge 2 1 1 .read (some 5)] := by decide
+    rw [hg] at he
+    simp only [List.mem_cons, List.mem_nil_iff, or_false] at he
+    rcases he with rfl | rfl
+    · cases hx
+    · cases hx; exact ⟨1, 1, rfl, rfl, rfl, by decide⟩
+  · intro hsub
+    have h1 : TtlEntry.mk 1 1 5 ∈ ({ (run (init) [(0, .set 0 1 7 3), (0, .grantTtl 0 1 1 .read 5)]) with pttl := [] } : State).pttl :=
+      hsub (TtlEntry.mk 1 1 5) (by decide)
+    cases h1
+
+/-- FULL, every state: `revoke_delegation_cascading(parent, child)` answers with records that existed, removes every
+    VAULT_ACCESS edge those records' children held on the delegated secrets, includes the direct record when there
+    is one, and leaves no record hanging below: no surviving record is the direct one, has `child` as its parent, or
+    has the child of any revoked record as its parent (the breadth-first walk reaches the whole sub-tree). -/
+theorem cascading_revocation_complete (s : State) (parent child : Nat) (pairs : List (Nat × Nat))
+    (h : (s.undelegateCascade parent child).2 = .pairs pairs) :
+    (∀ pc ∈ pairs, ∃ d ∈ s.delegs, (d.parent, d.child) = pc ∧
+        ∀ sec ∈ d.secrets, ∀ e ∈ (s.undelegateCascade parent child).1.graph,
+          ¬ (e.src = entNode d.child ∧ e.dst = secNode sec ∧ e.kind.isAccess = true)) ∧
+    (∀ d ∈ s.delegs, d.parent = parent → d.child = child → (parent, child) ∈ pairs) ∧
+    (∀ d ∈ (s.undelegateCascade parent child).1.delegs,
+        d ∈ s.delegs ∧ ¬ (d.parent = parent ∧ d.child = child) ∧ d.parent ≠ child ∧
+        ∀ pc ∈ pairs, d.parent ≠ pc.2) := by
+  have hlen : [child].length + (s.delegs.filter (fun d => !(d.parent = parent && d.child = child))).length ≤
+      s.delegs.length + 1 := by
+    have := List.length_filter_le (fun d : DelegRec => !(d.parent = parent && d.child = child)) s.delegs
+    simp only [List.length_cons, List.length_nil]; omega
+  obtain ⟨new, hacc, hnew, hsurv⟩ := cascadeLoop_spec _ _ _
+    (s.delegs.filter (fun d => d.parent = parent && d.child = child)) hlen
+  unfold State.undelegateCascade at h ⊢
+  simp only [Resp.pairs.injEq] at h
+  simp only [persistTtl_graph, persistDelegs_graph]
+  have hdel : ∀ (x : State), x.persistDelegs.persistTtl.delegs = x.delegs := by
+    intro x; unfold State.persistTtl; split <;> rfl
+  rw [hdel, foldl_dropRecord_delegs]
+  have hfirst : ∀ d ∈ s.delegs.filter (fun d => d.parent = parent && d.child = child),
+      d ∈ s.delegs ∧ d.parent = parent ∧ d.child = child := by
+    intro d hd
+    have := List.mem_filter.mp hd
+    exact ⟨this.1, by simpa using this.2⟩
+  have hds0 : ∀ d ∈ s.delegs.filter (fun d => !(d.parent = parent && d.child = child)),
+      d ∈ s.delegs ∧ ¬ (d.parent = parent ∧ d.child = child) := by
+    intro d hd
+    have := List.mem_filter.mp hd
+    refine ⟨this.1, fun ⟨h1, h2⟩ => ?_⟩
+    have h3 := this.2
+    simp [h1, h2] at h3
+  subst h
+  refine ⟨?_, ?_, ?_⟩
+  · intro pc hpc
+    obtain ⟨d, hd, rfl⟩ := List.mem_map.mp hpc
+    have hdm : d ∈ s.delegs := by
+      rw [hacc] at hd
+      rcases List.mem_append.mp hd with hd | hd
+      · exact (hfirst d hd).1
+      · exact (hds0 d (hnew d hd)).1
+    refine ⟨d, hdm, rfl, fun sec hsec e he => ?_⟩
+    exact ((mem_foldl_dropRecord_graph _ _).mp he).2 d hd sec hsec
+  · intro d hd hp hc
+    refine List.mem_map.mpr ⟨d, ?_, by rw [hp, hc]⟩
+    rw [hacc]
+    exact List.mem_append_left _ (List.mem_filter.mpr ⟨hd, by simp [hp, hc]⟩)
+  · intro d hd
+    obtain ⟨hm, hq, hn⟩ := hsurv d hd
+    obtain ⟨hm1, hm2⟩ := hds0 d hm
+    refine ⟨hm1, hm2, fun hc => hq (by rw [hc]; exact List.mem_singleton.mpr rfl), fun pc hpc => ?_⟩
+    obtain ⟨d', hd', rfl⟩ := List.mem_map.mp hpc
+    rw [hacc] at hd'
+    rcases List.mem_append.mp hd' with hd' | hd'
+    · simp only
+      rw [(hfirst d' hd').2.2]
+      exact fun hc => hq (by rw [hc]; exact List.mem_singleton.mpr rfl)
+    · exact hn d' hd'
+
+/-- non-vacuity: root → 1 → 2 → 3; cutting 1 → 2 takes 2 and 3 down and leaves 1; a cascade from a pair with no direct
+    record still clears what hangs below the child -/
+example :
+    let s := run (init) [(0, .set 0 1 7 3), (0, .delegate 0 1 [1] .admin none), (0, .delegate 1 2 [1] .write none),
+                         (0, .delegate 2 3 [1] .read none)]
+    (step s 1 (.get 3 1)).2 = .value 7 ∧
+    (step s 1 (.undelegateCascade 1 2)).2 = .pairs [(1, 2), (2, 3)] ∧
+    (step (step s 1 (.undelegateCascade 1 2)).1 1 (.get 3 1)).2 = .err .denied ∧
+    (step (step s 1 (.undelegateCascade 1 2)).1 1 (.get 2 1)).2 = .err .denied ∧
+    (step (step s 1 (.undelegateCascade 1 2)).1 1 (.get 1 1)).2 = .value 7 ∧
+    (step s 1 (.undelegateCascade 3 1)).2 = .pairs [(1, 2), (2, 3)] := by decide
+
 /-! ## at rest -/
 
 /-- secret VALUES: for every configuration and every history, no record of the store (this includes the audit
@@ -429,6 +570,13 @@ theorem at_rest_no_plain_value (pol : Policy) (a b c : Nat) (h : List (Nat × Op
 /-- non-vacuity: the value IS in the store — as ciphertext only -/
 example : (run (init) [(0, .set 0 1 7 3), (0, .rotate 0 1 9 3)]).store.any
     (fun r => r.fields.any (fun f => f.2 = .cipher (.value 9))) = true := by decide
+
+/-- … and so is a wrapped copy (`_vwrap:` record), until it is unwrapped -/
+example :
+    let s := run (init) [(0, .set 0 1 7 3), (0, .wrap 0 1)]
+    s.store.any (fun r => r.key = .wrap 0 ∧ r.fields.any (fun f => f.2 = .cipher (.value 7))) = true ∧
+    (step s 1 (.unwrap 0)).2 = .value 7 ∧ (step s 1 (.unwrap 0)).1.store.any (fun r => r.key = .wrap 0) = false ∧
+    (step (step s 1 (.unwrap 0)).1 1 (.unwrap 0)).2 = .err .notFound := by decide
 
 /-- FULL shape property for secret NAMES: no store record (key or field) ever exposes one -/
 def AtRestNoPlainName : Prop :=
